@@ -84,7 +84,7 @@ _slice = R.contract("Node._handle_connections@for:wsock", params={"self": "Node"
                      "dict:self.connections", "dict:self.peer_sockets", "dict:self.socket_peers",
                      "dict:self._half_ready_connections", "dict:self._peer_waiting_answer", "*Event.flag", "*list:Peer",
                      "*SequenceGenerator._sequence"],
-           props=["C15", "C14"],
+           props=["C15", "C14", "C13"],
            note="one iteration of `for wsock in ready_w` (send branch), under interference of the writer thread: the write "
                 "buffer may grow at its end whenever it is read outside write_lock and when the lock is acquired")
 _slice.interference = [("PeerConnection", "_write_buffer")]
